@@ -59,55 +59,73 @@ def guards_of_throws(fn):
 def range_guards(ctx, rule='range-guard-equals-documented-range'):
     n_fn = 0
     for tmpl, doc in sorted(DOC_RANGES.items()):
-        fns = [f for f in ctx.F.concrete() if f.cls == tmpl and (f.d.get('ctor') or f.name == 'check_argument')]
-        fns = [f for f in fns if guards_of_throws(f)]
-        if not fns:
-            raise AnalysisBroken('%s: no validating constructor analysed' % tmpl)
-        for fn in fns:
+        ctors = [f for f in ctx.F.concrete() if f.cls == tmpl and f.d.get('ctor')]
+        if not ctors:
+            raise AnalysisBroken('%s: no constructor analysed' % tmpl)
+        units = []
+        for fn in ctors:
+            # guards of the constructor itself and of the member functions it calls on this object (validation helpers)
+            gs = [(fn, g, t) for g, t in guards_of_throws(fn)]
+            delegating = False
+            for c in fn.walk():
+                if c['k'] == 'CXXMemberCallExpr' and c.get('org') == 'S':
+                    o = fn.call_object(c)
+                    if o is not None and fn.strip(o)['k'] == 'CXXThisExpr':
+                        h = ctx.F.resolve(c)
+                        if h is not None:
+                            gs += [(h, g, t) for g, t in guards_of_throws(h)]
+            for i in fn.inits:
+                if i['member'] == '<delegating>':
+                    delegating = True
+            if delegating and not gs:
+                continue      # forwards to a sibling constructor that is checked itself
+            units.append((fn, gs))
+        for fn, gs in units:
             n_fn += 1
-            gs = guards_of_throws(fn)
-            msgs = [message_chains(fn, t) for _, t in gs]
+            msgs = [message_chains(gf, t) for gf, _, t in gs]
             inst = '%s::%s' % (tmpl.replace('Spectra::', ''), fn.name)
             problems = []
-            if sorted(m for m in msgs if m) != sorted(doc):
+            if not gs:
+                problems.append('constructor performs no range check at all')
+            if gs and sorted(m for m in msgs if m) != sorted(doc):
                 problems.append('exception messages state %s but the documentation states %s' % (sorted(m for m in msgs if m), sorted(doc)))
-            # names: which leaves stand for n / nev / ncv
-            pnames = [fn.locals[v]['name'] for v in fn.params]
             for n in range(1, 15):
                 for nev in range(-3, n + 5):
                     for ncv in range(-3, n + 5):
-                        env = {}
-                        calls = {}
-                        for nm in pnames:
-                            if nm == 'nev':
-                                env[('local', nm)] = nev
-                            if nm == 'ncv':
-                                env[('local', nm)] = ncv
-                        # fields / calls holding n and nev
-                        for (cond, _) in gs:
-                            for x in fn.walk(cond['cond']):
+                        rejected = False
+                        for gf, g, _ in gs:
+                            env = {}
+                            calls = {}
+                            for v in gf.params:
+                                nm = gf.locals[v]['name']
+                                if nm == 'nev':
+                                    env[('local', nm)] = nev
+                                if nm == 'ncv':
+                                    env[('local', nm)] = ncv
+                            for x in gf.walk(g['cond']):
                                 if x['k'] == 'MemberExpr' and x.get('mk') == 'field':
                                     t = x['member']
                                     if 'number_eigenvalues' in t or t == 'm_nev':
                                         env[('field', t)] = nev
                                     elif t == 'm_ncv':
-                                        env[('field', t)] = min(ncv, n)
+                                        env[('field', t)] = min(ncv, n)      # the stored value is the clamped argument (checked below)
                                     elif t == 'm_n':
                                         env[('field', t)] = n
                                 if x['k'] == 'CXXMemberCallExpr' and x.get('callee') in ('rows', 'cols'):
-                                    calls[fn.s(x)] = (lambda a, n=n: n)
-                        try:
-                            rejected = any(ev(fn, c['cond'], env, calls) for c, _ in gs)
-                        except CannotEval as e:
-                            raise AnalysisBroken('%s: cannot evaluate range guard: %s' % (fn.qname, e))
+                                    calls[gf.s(x)] = (lambda a, n=n: n)
+                            try:
+                                if ev(gf, g['cond'], env, calls):
+                                    rejected = True
+                            except CannotEval as e:
+                                raise AnalysisBroken('%s: cannot evaluate range guard: %s' % (gf.qname, e))
                         accept_doc = all(chain_holds(ch, {'n': n, 'nev': nev, 'ncv': ncv}) for ch in doc)
                         if rejected == accept_doc:
                             problems.append('n=%d nev=%d ncv=%d is %s but the documented range says %s' %
                                             (n, nev, ncv, 'rejected' if rejected else 'accepted', 'valid' if accept_doc else 'invalid'))
                             break
-                    if problems:
+                    if len(problems) > 0 and problems[-1].startswith('n='):
                         break
-                if problems:
+                if len(problems) > 0 and problems[-1].startswith('n='):
                     break
             # guards run before anything else in the body
             ctx.check(not problems, rule, inst, fn.qname,
